@@ -264,6 +264,21 @@ func (g *Gen) genC03() {
 			s = r.RandBytes("", 1, 6)
 		}
 		g.add(stableCase("C03", hd, b, s, 0, flags, kind))
+		// directed: a token parameter (list) whose prefix ends right after a value and some white space, in every
+		// terminator mode (space-terminated lists included): nothing definitive may be said before the next byte
+		if i%16 == 0 {
+			fl := []int{4, 4 | 16, 4 | 1, 0, 16, 64, 128 | 4, 2 | 4}[r.N(8)]
+			hd2 := "tokparam"
+			if fl&64 != 0 {
+				hd2 = fmt.Sprintf("uriparams %d", r.N(4))
+			} else if fl&128 != 0 {
+				hd2 = fmt.Sprintf("urihdrs %d", r.N(4))
+			}
+			val := r.Pick(r.Token(1, 6), r.Quoted(), "")
+			b2 := r.Alnum(1, 5) + r.Pick("=", " =", "= ") + val + r.Pick(" ", "\t", "  ", " \t ")
+			s2 := r.Pick(";x=1", "tok", "\r\nX", "\r\n cont", "=z", ",n", "?h", "&y", " ")
+			g.add(stableCase("C03", hd2, b2, s2, 0, fl, "tokparam-after-ws"))
+		}
 	}
 }
 
